@@ -120,7 +120,11 @@ def c08Eval : PropEval := fun i pre post =>
          | r :: _ => if C08.insertOk top x i.toInt.toNat r then none
                      else some "after INSERT at a valid index EXTRACT does not return the inserted item (or other points changed)"
          | [] => some "INSERT emptied the CODE stack"
-       else if i == 0 then none
+       else if i == 0 then
+         (match post.code with
+          | r :: _ => if Item.equals r x || r.show == x.show then none
+                      else some "after INSERT at index 0 EXTRACT at 0 (the whole item) is not the inserted item"
+          | [] => some "INSERT emptied the CODE stack")
        else
          -- out of range / negative: EXTRACT normalises the index, INSERT (as pinned by a unit test) does not
          match post.code with
@@ -132,9 +136,20 @@ def c08Eval : PropEval := fun i pre post =>
          | [] => none
      | _, _ => none)
   | .code o, some post =>
-    (match C08.expect o pre with
-     | some want => if encState post == encState want then none else some ("points-based statement prescribes " ++ encState want)
-     | none => none)
+    let atoms : Option String :=
+      if o == .cons || o == .list || o == .append then
+        match pre.code, post.code with
+        | top :: second :: _, r :: _ =>
+          if C08.keepsAtoms top second r then none
+          else some "the result does not consist of exactly the atoms of the two operands"
+        | _, _ => none
+      else none
+    (match atoms with
+     | some why => some why
+     | none =>
+       match C08.expect o pre with
+       | some want => if encState post == encState want then none else some ("points-based statement prescribes " ++ encState want)
+       | none => none)
   | _, _ => none
 
 /-- C09: the README rule for element-wise operations; SORT yields an ordered permutation -/
@@ -258,6 +273,27 @@ def fieldName : C10.Field → String
   | .index => "INDEX" | .bvec => "BOOLVECTOR" | .ivec => "INTVECTOR" | .fvec => "FLOATVECTOR" | .input => "INPUT"
   | .output => "OUTPUT" | .graph => "GRAPH" | .bindings => "bindings" | .quote => "quote flag" | .send => "send flag" | .cfg => "configuration"
 
+/-- C18: a history query at depth `pos` reads what the plain query reads once the `pos` newer
+snapshots are set aside (stated only where the operands are complete and the depth exists) -/
+def c18Eval : PropEval := fun i pre post =>
+  match i, post with
+  | .graph o, some post =>
+    let plain : Option GraphOp := match o with
+      | .edgeHistory => if pre.int.length ≥ 3 then some .edgeGetWeight else none
+      | .nodeHistory => if pre.int.length ≥ 2 then some .nodeGetState else none
+      | .nodesHistory => if pre.ivec.isEmpty then none else some .nodes
+      | _ => none
+    (match plain, pre.int with
+     | some q, pos :: il =>
+       if pos ≥ 0 && pos.toInt.toNat < pre.graph.items.length then
+         let below : State := { pre with int := il, graph := { pre.graph with items := pre.graph.items.take (pre.graph.items.length - pos.toInt.toNat) } }   -- items are oldest first
+         let want := { semGraph q below with graph := pre.graph }
+         if encState (canon i pre post) == encState (canon i pre want) then none
+         else some ("a history query at depth " ++ toString pos ++ " must read the snapshot at that depth: " ++ encState want)
+       else none
+     | _, _ => none)
+  | _, _ => none
+
 /-- C10: missing arguments never fabricate results; instructions touch only their stacks -/
 def c10Eval : PropEval := fun i pre post =>
   match post with
@@ -292,7 +328,7 @@ def c15Eval : PropEval := fun i pre post =>
 
 def propEvals : List (String × PropEval) :=
   [("C01", panicFree), ("C04", c04Eval), ("C05", c05Eval), ("C06", c06Eval), ("C07", c07Eval), ("C08", c08Eval),
-   ("C09", c09Eval), ("C19", c19Eval), ("C15", c15Eval), ("C10", c10Eval)]
+   ("C09", c09Eval), ("C19", c19Eval), ("C15", c15Eval), ("C10", c10Eval), ("C18", c18Eval)]
 
 /-- instruction names in the scope of a property's single-instruction scenario -/
 def scopeOf (pid : String) : List Instr :=
@@ -332,7 +368,7 @@ def judge (i : Instr) (pre : State) (obs : Option State) (shown : State) : Strin
       | some o => match RandDrv.check i pre o with
         | some why => " PROPFAIL " ++ (if i == .code .rand then "C12 " else "C13 ") ++ why
         | none => ""
-      | none => ""
+      | none => " PROPFAIL " ++ (if i == .code .rand then "C12 " else "C13 ") ++ "the instruction crashed (panic) instead of producing a value or nothing"
     if pf == "" && rf == "" then "ok R" else "no" ++ pf ++ rf
   else
     let m := canon i pre (sem fullExt zeroOracle i pre)
